@@ -252,4 +252,38 @@ def compile {α : Type} (isPt : Nat → Bool) : List (Nat × α) → Except PyEr
 termination_by l => l.length
 decreasing_by all_goals simp_wf <;> omega
 
+
+/-! ### `internal_tag_compiler`: split the text at LF only (`str.split("\n")`, NOT `splitlines()`),
+    drop the empty item after a trailing LF, pair up (code line, value line) -/
+
+/-- `s.split("\n")` -/
+def splitLF : List Nat → List (List Nat)
+  | [] => [[]]
+  | c :: r =>
+    if c = 10 then [] :: splitLF r
+    else match splitLF r with
+      | [] => [[c]]                       -- unreachable: splitLF never returns []
+      | l :: ls => (c :: l) :: ls
+
+/-- lines as `internal_tag_compiler` sees them -/
+def internalLines (s : List Nat) : List (List Nat) :=
+  let ls := splitLF s
+  if s.getLast? = some 10 then ls.dropLast else ls
+
+/-- pair up lines: `none` = ValueError of `int(code line)` / IndexError of a missing value line -/
+def pairLines : List (List Nat) → Option (List (Nat × List Nat))
+  | [] => some []
+  | [_] => none
+  | c :: v :: r => do
+    let code ← parseInt c
+    if code < 0 then none else
+    let rest ← pairLines r
+    some ((code.toNat, v) :: rest)
+
+/-- `"\n".join(lines)` -/
+def joinLF : List (List Nat) → List Nat
+  | [] => []
+  | [l] => l
+  | l :: r => l ++ 10 :: joinLF r
+
 end EzdxfVerif.Codec
